@@ -80,6 +80,23 @@ Section Build.
   Definition insert_blob (t : table) (b : list (bytes * fstate)) : table :=
     fold_left (fun acc e => ainsert bytes_eqb acc (fst e) (snd e)) b t.
 
+  (* one blob per worker, in spawn order, each taken out of what the previous ones left of the table *)
+  Fixpoint take_blobs (t : table) (pathss : list (list bytes)) : list (list (bytes * fstate)) * table :=
+    match pathss with
+    | [] => ([], t)
+    | ps :: rest =>
+        let (b, t1) := take_blob t ps in
+        let (bs, t2) := take_blobs t1 rest in
+        (b :: bs, t2)
+    end.
+
+  (* the paths whose remembered states a build takes out of the table: every leaf, every target of the plan *)
+  Definition worker_paths (pack : node_pack) : list (list bytes) :=
+    map (fun l => [l]) (p_leaves pack) ++ map n_targets (p_nodes pack).
+
+  (* what is left of the table once every worker's blob has been taken *)
+  Definition table_rest (t : table) (pack : node_pack) : table := snd (take_blobs t (worker_paths pack)).
+
   (* the packet a dependent receives on one edge: None = cancel *)
   Definition received (leaf_sent node_sent : list (option (list T))) (si : source_index) : option T :=
     match si with
@@ -214,7 +231,12 @@ Section Build.
         match get_nodes w1 rules_path goal with
         | Err f => mk_outcome w1 (VFatal f) [] []
         | Ok pack =>
-            let st0 := mk_rs w1 t [] [] [] [] in
+            (* before any worker runs, main takes every worker's blob out of the table and saves what is left
+               (after the repair of F6): what is remembered about a file a worker is about to replace must not
+               survive on disk if ruler is killed before the final write_table below. The workers' blobs are
+               still taken one by one from t (run_leaf / run_node), which gives the same blobs. *)
+            let w1t := write_table w1 (table_rest t pack) in
+            let st0 := mk_rs w1t t [] [] [] [] in
             let st1 := fold_left run_leaf (p_leaves pack) st0 in
             match run_nodes st1 (p_nodes pack) with
             | None =>
